@@ -70,11 +70,15 @@ YearOfDay(n) == LET e == 1 + (400 * n) \div 146097
                     ELSE IF DaysBeforeYear(e + 1) <= n THEN e + 1 ELSE e
 YearOf(l)   == YearOfDay(AbsDay(l))
 YearDay(l)  == AbsDay(l) - DaysBeforeYear(YearOf(l)) + 1    \* 1-based, time.Time.YearDay
-MonthLens(y) == <<31, IF IsLeap(y) THEN 29 ELSE 28, 31, 30, 31, 30, 31, 31, 30, 31, 30, 31>>
-RECURSIVE CumBefore(_, _)
-CumBefore(y, m) == IF m = 1 THEN 0 ELSE CumBefore(y, m - 1) + MonthLens(y)[m - 1]
-MonthOf(l) == LET y == YearOf(l)  d0 == YearDay(l) - 1
-              IN  CHOOSE m \in 1..12 : CumBefore(y, m) <= d0 /\ d0 < CumBefore(y, m) + MonthLens(y)[m]
+MonthLens(y) == IF IsLeap(y) THEN <<31, 29, 31, 30, 31, 30, 31, 31, 30, 31, 30, 31>>
+                ELSE <<31, 28, 31, 30, 31, 30, 31, 31, 30, 31, 30, 31>>
+CumNormal == <<0, 31, 59, 90, 120, 151, 181, 212, 243, 273, 304, 334, 365>>
+CumLeap   == <<0, 31, 60, 91, 121, 152, 182, 213, 244, 274, 305, 335, 366>>
+ASSUME \A y \in {2019, 2020} : \A m \in 1..12 :
+         (IF IsLeap(y) THEN CumLeap ELSE CumNormal)[m + 1] = (IF IsLeap(y) THEN CumLeap ELSE CumNormal)[m] + MonthLens(y)[m]
+CumBefore(y, m) == IF IsLeap(y) THEN CumLeap[m] ELSE CumNormal[m]      \* days of year y before month m (m = 13: the whole year)
+MonthOf(l) == LET y == YearOf(l)  d0 == YearDay(l) - 1  cum == IF IsLeap(y) THEN CumLeap ELSE CumNormal
+              IN  CHOOSE m \in 1..12 : cum[m] <= d0 /\ d0 < cum[m + 1]
 \* wall-clock seconds (relative to Base) of y-m-01 00:00:00; m may be 13 (= January of y+1)
 MonthStartLocal(y, m) == IF m = 13 THEN (DaysBeforeYear(y + 1) - BaseDay) * DaySec
                          ELSE (DaysBeforeYear(y) + CumBefore(y, m) - BaseDay) * DaySec
@@ -110,7 +114,9 @@ TFI == 1..Len(Timeframes)
 Years == Input.years
 RecLens == Range(Input.reclens)
 
-YearStartAbs(z, y) == AbsOfLocal(z, YearStartLocal(y))       \* time.Date(y, January, 1, 0, 0, 0, 0, loc)
+YearStartDate(z, y) == AbsOfLocal(z, YearStartLocal(y))      \* time.Date(y, January, 1, 0, 0, 0, 0, loc)
+YsYears == (Years[1] - 2)..(Years[Len(Years)] + 2)           \* tabulated once (register 4)
+YearStartAbs(z, y) == IF y \in YsYears THEN TLCGet(4)[z][y] ELSE YearStartDate(z, y)
 Shift(tf, devs) == IF tf = DaySec /\ "DailyIndexFromZero" \in devs THEN 1 ELSE 0
 
 \* io.TimeToIndex(t, tf)
@@ -138,36 +144,32 @@ IvStart(z, tf, y, k) == IF tf = DaySec THEN AbsOfLocal(z, YearStartLocal(y) + Da
 
 \* ---- the property on one interval (both end points), for a given variant of the implementation ----
 TfSec(i) == Timeframes[i].sec
-IxZ == c.z
-IxTf == TfSec(c.tf)
-IxS0 == IvStart(IxZ, IxTf, c.y, c.k)
-IxE1 == IvStart(IxZ, IxTf, c.y, c.k + 1) - 1
 FileZone == Input.filezone                                     \* zone index standing for time.Local
-
+\* what the code (variant devs) yields for interval k of (zone, timeframe, year): indices of the first and the last
+\* second, the times recovered from them, the index of the recovered time, the local years, the slots of the file
+IxObs(z, tf, y, k, devs) ==
+  LET s0 == IvStart(z, tf, y, k)
+      e1 == IvStart(z, tf, y, k + 1) - 1
+      is == TimeToIndex(z, tf, s0, devs)
+      ie == TimeToIndex(z, tf, e1, devs)
+      be == IndexToTime(z, tf, y, ie, devs)
+  IN  [s0 |-> s0, e1 |-> e1, is |-> is, ie |-> ie,
+       bs |-> IndexToTime(z, tf, y, is, devs), be |-> be, ib |-> TimeToIndex(z, tf, be, devs),
+       ys |-> YearOf(Local(z, s0)), ye |-> YearOf(Local(z, e1)),
+       slots |-> YearLen(FileZone, y) \div tf]                   \* FileSize = Headersize + slots * recordLen
 \* every timestamp of the interval maps to one slot of its own year's file
-OneSlot(devs) == /\ YearOf(Local(IxZ, IxS0)) = c.y /\ YearOf(Local(IxZ, IxE1)) = c.y
-                 /\ TimeToIndex(IxZ, IxTf, IxS0, devs) = TimeToIndex(IxZ, IxTf, IxE1, devs)
+OneSlot(y, o) == o.ys = y /\ o.ye = y /\ o.is = o.ie
 \* slot and interval start convert back and forth; since the interval start is recovered from the slot,
-\* distinct intervals necessarily have distinct slots (SlotBijection)
-RoundTrip(devs) == /\ IndexToTime(IxZ, IxTf, c.y, TimeToIndex(IxZ, IxTf, IxS0, devs), devs) = IxS0
-                   /\ IndexToTime(IxZ, IxTf, c.y, TimeToIndex(IxZ, IxTf, IxE1, devs), devs) = IxS0
-                   /\ TimeToIndex(IxZ, IxTf, IndexToTime(IxZ, IxTf, c.y, TimeToIndex(IxZ, IxTf, IxE1, devs), devs), devs)
-                        = TimeToIndex(IxZ, IxTf, IxE1, devs)
-SlotBijection(devs) == TimeToIndex(IxZ, IxTf, IxS0, devs) = c.k + 1 - Shift(IxTf, devs)     \* explicit inverse: k = slot - 1 + shift
-SlotInDataArea(devs) == \A rl \in RecLens :
-                          LET off == TimeToOffset(IxZ, IxTf, IxS0, rl, devs)
-                          IN  /\ Headersize <= off
-                              /\ off + rl <= FileSize(FileZone, IxTf, c.y, rl)
-                              /\ off = IndexToOffset(TimeToIndex(IxZ, IxTf, IxS0, devs), rl)
-IndexProp(devs) == OneSlot(devs) /\ RoundTrip(devs) /\ SlotBijection(devs) /\ SlotInDataArea(devs)
-
-IndexPure == Mode = "index" => IndexProp({})
+\* distinct intervals necessarily have distinct slots
+RoundTrip(o) == o.bs = o.s0 /\ o.be = o.s0 /\ o.ib = o.ie
+\* explicit inverse of the slot map: k = slot - 1 + shift
+SlotBijection(tf, k, o, devs) == o.is = k + 1 - Shift(tf, devs)
+\* Headersize <= offset and offset + recordLen <= FileSize, for every record length
+SlotInDataArea(o) == \A rl \in RecLens : LET off == IndexToOffset(o.is, rl)
+                                        IN  Headersize <= off /\ off + rl <= Headersize + o.slots * rl
+IndexProp(tf, y, k, o, devs) == OneSlot(y, o) /\ RoundTrip(o) /\ SlotBijection(tf, k, o, devs) /\ SlotInDataArea(o)
 \* the known behaviour breaks the property only through the listed deviation, only where its guard fires
-IndexGuard == IxTf = DaySec /\ c.k = 0 /\ "DailyIndexFromZero" \in Deviations
-IndexKnownOnly == Mode = "index" => (IndexProp(Deviations) \/ IndexGuard)
-IndexGuardReal == Mode = "index" => (IndexGuard => ~SlotInDataArea(Deviations))
-\* the file size does not depend on which of the zones time.Local is (all have whole-day years in the range)
-FileSizeZoneIndependent == Mode = "index" => \A zl \in ZI : YearLen(zl, c.y) = DaysInYear(c.y) * DaySec
+IndexGuard(tf, k) == tf = DaySec /\ k = 0 /\ "DailyIndexFromZero" \in Deviations
 
 (***************************************************************************)
 (* C31: utils/timeframe.go                                                 *)
@@ -243,16 +245,8 @@ WinGridSet(z) == {s \in (UNION {{a + d, a - d, a - d - 1} : a \in WinAnchors(z),
                            \cup {Input.wstride_s0 + i * Input.wstride_step : i \in 0..(Input.wstride_n - 1)} :
                     s >= Input.wlo /\ s < Input.whi}
 WinGrid == TLCGet(3)
-WnS == WinGrid[c.z][c.j]
-WnOutP == WinOut(c.z, c.sfx, c.m, WnS, {})
-WnOutD == WinOut(c.z, c.sfx, c.m, WnS, Deviations)
-WnHits == {d \in Deviations \cap {"DayCeilAdds24h", "WeekIsoWindow"} : WinOut(c.z, c.sfx, c.m, WnS, {d}) # WnOutP}
-
-WindowPure == Mode = "window" => WinProp(WnS, WnOutP)
-WindowKnownOnly == Mode = "window" => (WinProp(WnS, WnOutD) \/ WnHits # {})
-WindowDevsExplainAll == Mode = "window" => (WnHits = {} => WnOutD = WnOutP)
-\* in UTC a one-week window is the ISO week; the day deviation needs a zone with changing offset
-WindowUtcClean == (Mode = "window" /\ c.z = UtcZone /\ (c.sfx # "W" \/ c.m = 1)) => WnHits = {}
+\* each deviation belongs to one suffix
+DevsOf(sfx) == (IF sfx = "D" THEN {"DayCeilAdds24h"} ELSE IF sfx = "W" THEN {"WeekIsoWindow"} ELSE {}) \cap Deviations
 
 \* ---- parsing and printing ----
 \* a timeframe text is the token pair <multiplier><suffix>; str is its printed form
@@ -307,11 +301,6 @@ PrCdStable(m, sfx) == LET cd == CdFromString(m, sfx) IN cd = Nil \/ CdFromString
 PrHits(m, sfx) == LET tf == TfFromString(m, sfx) IN
                   IF tf = Nil THEN {} ELSE {d \in Deviations \cap {"PrintDropsRemainder", "PrintNilAboveYear"} :
                                             TfFromDuration(tf.dur, {d}) # TfFromDuration(tf.dur, {})}
-ParsePure == Mode = "parse" => (PrStable(c.m, c.sfx, {}) /\ PrQueryable(c.m, c.sfx) /\ PrCdStable(c.m, c.sfx))
-ParseKnownOnly == Mode = "parse" => (PrStable(c.m, c.sfx, Deviations) \/ PrHits(c.m, c.sfx) # {})
-ParseDevsExplainAll == Mode = "parse" => (PrHits(c.m, c.sfx) = {} =>
-                          (TfFromString(c.m, c.sfx) = Nil
-                           \/ TfFromDuration(TfFromString(c.m, c.sfx).dur, Deviations) = TfFromDuration(TfFromString(c.m, c.sfx).dur, {})))
 
 (***************************************************************************)
 (* Enumeration                                                             *)
@@ -346,6 +335,7 @@ WindowNext == c.j < Len(WinGrid[c.z]) /\ c' = [c EXCEPT !.j = @ + 1]
 ParseHeads == {[m |-> Input.strs[i].m, sfx |-> Input.strs[i].sfx] : i \in 1..Len(Input.strs)}
 
 ASSUME /\ TLCSet(1, JsonDeserialize(InputFile))
+       /\ TLCSet(4, [z \in ZI |-> [y \in YsYears |-> YearStartDate(z, y)]])
        /\ TLCSet(2, [z \in ZI |-> [y \in Range(Years) |-> Anchors(z, y)]])
        /\ TLCSet(3, IF Mode = "window" THEN [z \in ZI |-> SetToSortSeq(WinGridSet(z), LAMBDA a, b : a < b)] ELSE <<>>)
 
@@ -355,26 +345,49 @@ Next == \/ (Mode = "index" /\ IndexNext)
 Spec == Init /\ [][Next]_c
 
 (***************************************************************************)
-(* Cases for the replay into the real code                                 *)
+(* Invariants (one per mode; each also emits the cases for the replay into *)
+(* the real code with PrintT, so that every value is computed once)        *)
 (***************************************************************************)
-IxNear == \E a \in AnchorTab[c.z][c.y] : (IxS0 - a <= 2 * IxTf /\ a - IxS0 <= 3 * IxTf)
-IxSel == \/ c.k <= 2 \/ c.k >= NIntervals(IxZ, IxTf, c.y) - 3 \/ IxNear
-         \/ c.k % Timeframes[c.tf].emit_m = Timeframes[c.tf].emit_r
-IndexEmit == (Mode = "index" /\ IxSel) =>
-  PrintT(<<"IX", ToJson([z |-> Zones[c.z].name, tf |-> Timeframes[c.tf].name, y |-> c.y, k |-> c.k, s |-> IxS0, e |-> IxE1,
-                         n |-> NIntervals(IxZ, IxTf, c.y), ylen |-> YearLen(FileZone, c.y),
-                         ip |-> TimeToIndex(IxZ, IxTf, IxS0, {}), id |-> TimeToIndex(IxZ, IxTf, IxS0, Deviations),
-                         bd |-> IndexToTime(IxZ, IxTf, c.y, TimeToIndex(IxZ, IxTf, IxE1, Deviations), Deviations),
-                         hit |-> IndexGuard])>>)
-WnSel == (c.j * Input.wemit_a + c.m * 7 + Len(c.sfx)) % Input.wemit_m < Input.wemit_k \/ WnHits # {} \/ ~WinProp(WnS, WnOutD)
-WindowEmit == (Mode = "window" /\ WnSel) =>
-  PrintT(<<"WN", ToJson([z |-> Zones[c.z].name, sfx |-> c.sfx, m |-> c.m, s |-> WnS, p |-> WnOutP, d |-> WnOutD,
-                         okp |-> WinProp(WnS, WnOutP), okd |-> WinProp(WnS, WnOutD), hit |-> WnHits])>>)
-ParseEmit == Mode = "parse" =>
-  LET tf == TfFromString(c.m, c.sfx)  cd == CdFromString(c.m, c.sfx) IN
-  PrintT(<<"PR", ToJson([m |-> c.m, sfx |-> c.sfx, tf |-> tf, cd |-> cd,
-                         q |-> IF cd = Nil THEN "" ELSE Queryable(cd),
-                         pp |-> IF tf = Nil THEN Nil ELSE TfFromDuration(tf.dur, {}),
-                         pd |-> IF tf = Nil THEN Nil ELSE TfFromDuration(tf.dur, Deviations),
-                         okd |-> PrStable(c.m, c.sfx, Deviations), hit |-> PrHits(c.m, c.sfx)])>>)
+IndexInv ==
+  Mode = "index" =>
+  LET z == c.z  tf == TfSec(c.tf)  y == c.y  k == c.k
+      oP == IxObs(z, tf, y, k, {})
+      oD == IF tf = DaySec THEN IxObs(z, tf, y, k, Deviations) ELSE oP
+      near == \E a \in AnchorTab[z][y] : (oP.s0 - a <= 2 * tf /\ a - oP.s0 <= 3 * tf)
+      sel == \/ k <= 2 \/ k >= NIntervals(z, tf, y) - 3 \/ near
+             \/ k % Timeframes[c.tf].emit_m = Timeframes[c.tf].emit_r
+  IN  /\ IndexProp(tf, y, k, oP, {})                                           \* IndexPure
+      /\ (IndexProp(tf, y, k, oD, Deviations) \/ IndexGuard(tf, k))            \* IndexKnownOnly
+      /\ (IndexGuard(tf, k) => ~SlotInDataArea(oD))                            \* the guard is exact
+      /\ (tf # DaySec => oD = oP)                                              \* DeviationsExplainAll
+      /\ (sel => PrintT(<<"IX", ToJson([z |-> Zones[z].name, tf |-> Timeframes[c.tf].name, y |-> y, k |-> k,
+                                         n |-> NIntervals(z, tf, y), p |-> oP, d |-> oD, hit |-> IndexGuard(tf, k)])>>))
+\* the file size does not depend on which of the zones time.Local is (all have whole-day years in the range)
+FileSizeZoneIndependent == Mode = "index" => \A zl \in ZI : YearLen(zl, c.y) = DaysInYear(c.y) * DaySec
+
+WindowInv ==
+  Mode = "window" =>
+  LET z == c.z  sfx == c.sfx  m == c.m  s == WinGrid[z][c.j]
+      oP == WinOut(z, sfx, m, s, {})
+      oD == IF DevsOf(sfx) = {} THEN oP ELSE WinOut(z, sfx, m, s, Deviations)
+      hits == IF oD = oP THEN {} ELSE DevsOf(sfx)
+      sel == \/ (c.j * Input.wemit_a + m * 7 + Len(sfx)) % Input.wemit_m < Input.wemit_k
+             \/ (hits # {} /\ (sfx = "D" \/ (c.j + m) % Input.wemit_h = 0))
+  IN  /\ WinProp(s, oP)                                                        \* WindowPure
+      /\ (WinProp(s, oD) \/ hits # {})                                         \* WindowKnownOnly
+      /\ ((z = UtcZone /\ (sfx # "W" \/ m = 1)) => hits = {})                  \* in UTC a one-week window is the ISO week
+      /\ (sel => PrintT(<<"WN", ToJson([z |-> Zones[z].name, sfx |-> sfx, m |-> m, s |-> s, p |-> oP, d |-> oD,
+                                         okd |-> WinProp(s, oD), hit |-> hits])>>))
+
+ParseInv ==
+  Mode = "parse" =>
+  LET m == c.m  sfx == c.sfx  tf == TfFromString(m, sfx)  cd == CdFromString(m, sfx) IN
+      /\ PrStable(m, sfx, {}) /\ PrQueryable(m, sfx) /\ PrCdStable(m, sfx)     \* ParsePure
+      /\ (PrStable(m, sfx, Deviations) \/ PrHits(m, sfx) # {})                 \* ParseKnownOnly
+      /\ ((PrHits(m, sfx) = {} /\ tf # Nil) => TfFromDuration(tf.dur, Deviations) = TfFromDuration(tf.dur, {}))
+      /\ PrintT(<<"PR", ToJson([m |-> m, sfx |-> sfx, tf |-> tf, cd |-> cd,
+                                q |-> IF cd = Nil THEN "" ELSE Queryable(cd),
+                                pp |-> IF tf = Nil THEN Nil ELSE TfFromDuration(tf.dur, {}),
+                                pd |-> IF tf = Nil THEN Nil ELSE TfFromDuration(tf.dur, Deviations),
+                                okd |-> PrStable(m, sfx, Deviations), hit |-> PrHits(m, sfx)])>>)
 =============================================================================
